@@ -227,3 +227,186 @@ Proof.
   destruct (err_is (Some e) fs_ErrNotExist); eexists; (split; [reflexivity|]); [reflexivity|eauto].
 Qed.
 End GetAccess.
+
+(* ---------- internal/file.WriteFile = the writer program of C14_Writer ---------- *)
+(* GoLite types an effect oracle `world -> args -> world * results` with the results flattened
+   into one left-nested tuple; the hand-written program nests to the right *)
+Definition nest3 {A B C} (x : A * B * C) : A * (B * C) := (fst (fst x), (snd (fst x), snd x)).
+Definition flat3 {A B C} (x : A * (B * C)) : A * B * C := (fst x, fst (snd x), snd (snd x)).
+Lemma flat3_nest3 {A B C} (x : A * B * C) : flat3 (nest3 x) = x.
+Proof. destruct x as [[a b] c]. reflexivity. Qed.
+Lemma nest3_flat3 {A B C} (x : A * (B * C)) : nest3 (flat3 x) = x.
+Proof. destruct x as [a [b c]]. reflexivity. Qed.
+
+Lemma writer_prog_ext : forall W F create create' write write' close name rename remove,
+  (forall w d p, create w d p = create' w d p) -> (forall w f b, write w f b = write' w f b) ->
+  forall w dir path content,
+  writer_prog W F create write close name rename remove w dir path content =
+  writer_prog W F create' write' close name rename remove w dir path content.
+Proof.
+  intros W F create create' write write' close name rename remove Hc Hw w dir path content.
+  unfold writer_prog. rewrite Hc. destruct (snd (snd (create' w dir gen_temp_file_pattern))); [reflexivity|].
+  rewrite Hw. reflexivity.
+Qed.
+
+Section WriteFileEquiv.
+Variables F W : Type.
+Variable create : W -> string -> string -> W * F * option err.
+Variable write : W -> F -> list Z -> W * Z * option err.
+Variable close : W -> F -> W * option err.
+Variable name : F -> string.
+Variable rename : W -> string -> string -> W * option err.
+Variable remove : W -> string -> W * option err.
+
+Definition gen_write := gen_file_WriteFile F W create write close name rename remove.
+Definition model_write :=
+  writer_prog W F (fun w d p => nest3 (create w d p)) (fun w f b => nest3 (write w f b)) close name rename remove.
+
+(* for EVERY world type, every type of file handles and every behaviour of the six calls: the
+   generated WriteFile transforms the world exactly as the program does, and returns nil exactly
+   when the program reports success *)
+Lemma gen_WriteFile_equiv : forall w dir path content,
+  (fst (gen_write w dir path content), is_none (snd (gen_write w dir path content)))
+  = model_write w dir path content.
+Proof.
+  intros w dir path content.
+  unfold gen_write, model_write, gen_file_WriteFile, writer_prog, cleanup, nest3.
+  change gen_temp_file_pattern with "notation-*".
+  destruct (create w dir "notation-*") as [[w1 f] [e1|]]; cbn [fst snd is_none negb olist]; [reflexivity|].
+  destruct (write w1 f content) as [[w2 n] [e2|]]; cbn [fst snd is_none negb olist].
+  { destruct (close w2 f) as [w3 r3]. cbn [fst snd].
+    destruct (remove w3 (name f)) as [w4 r4]. reflexivity. }
+  destruct (close w2 f) as [w3 [e3|]]; cbn [fst snd is_none negb olist].
+  { destruct (close w3 f) as [w4 r4]. cbn [fst snd].
+    destruct (remove w4 (name f)) as [w5 r5]. reflexivity. }
+  destruct (rename w3 (name f) path) as [w4 [e4|]]; cbn [fst snd is_none negb olist]; [|reflexivity].
+  destruct (close w4 f) as [w5 r5]. cbn [fst snd].
+  destruct (remove w5 (name f)) as [w6 r6]. reflexivity.
+Qed.
+
+(* the error WriteFile returns wraps (or is) the error of the call that failed *)
+End WriteFileEquiv.
+
+(* ---------- the world as the history of calls ---------- *)
+Section Logged.
+Variable F : Type.
+Variable name : F -> string.
+Variable B : behaviour F.
+
+(* the generated WriteFile run against behaviour B, from the empty history *)
+Definition gen_write_logged (dir path : string) (content : list Z) : list (call F) * option err :=
+  gen_file_WriteFile F (list (call F))
+    (fun w d p => flat3 (l_create F B w d p)) (fun w f b => flat3 (l_write F B w f b))
+    (l_close F B) name (l_rename F B) (l_remove F B) [] dir path content.
+
+Lemma gen_write_logged_run : forall dir path content,
+  (fst (gen_write_logged dir path content), is_none (snd (gen_write_logged dir path content)))
+  = run_logged F name B dir path content.
+Proof.
+  intros. unfold gen_write_logged.
+  pose proof (gen_WriteFile_equiv F (list (call F))
+    (fun w d p => flat3 (l_create F B w d p)) (fun w f b => flat3 (l_write F B w f b))
+    (l_close F B) name (l_rename F B) (l_remove F B) [] dir path content) as E.
+  unfold gen_write, model_write in E. rewrite E. unfold run_logged.
+  apply writer_prog_ext; intros; apply nest3_flat3.
+Qed.
+End Logged.
+
+Section LoggedThms.
+Variable F : Type.
+Variable name : F -> string.
+
+Lemma gen_WriteFile_steps : forall (B : behaviour F) dir path content,
+  writer_run F name dir path content
+    (fst (gen_write_logged F name B dir path content))
+    (is_none (snd (gen_write_logged F name B dir path content))).
+Proof.
+  intros B dir path content.
+  pose proof (gen_write_logged_run F name B dir path content) as E.
+  pose proof (writer_steps F name B dir path content) as R.
+  rewrite <- E in R. exact R.
+Qed.
+
+Lemma gen_WriteFile_runs_model : forall sha nm (B : behaviour F) dir path content wid u s,
+  getN wid (s_w s) = None -> getN wid (s_ino s) = None ->
+  (forall h d p f, b_create F B h d p = (f, None) ->
+      is_temp (nm (name f)) = true /\ getS (nm (name f)) (s_dir s) = None) ->
+  nm path = key sha u ->
+  let r := gen_write_logged F name B dir path content in
+  exists s', exec sha s (events F name wid u (data_of_bytes content) nm false (fst r)) = Some s' /\
+             end_state sha s s' wid u (data_of_bytes content) (is_none (snd r)).
+Proof.
+  intros sha nm B dir path content wid u s Gw Gi HC HP r.
+  pose proof (gen_write_logged_run F name B dir path content) as E. fold r in E.
+  pose proof (writer_runs_model sha F name nm B dir path content wid u s Gw Gi HC HP) as M.
+  cbv zeta in M. rewrite <- E in M. exact M.
+Qed.
+End LoggedThms.
+
+(* ---------- crl.FileCache.Set ---------- *)
+Section SetEquiv.
+Variable sum : list Z -> list Z.
+Variable hexenc : list Z -> string.
+Variables F W : Type.
+Variable create : W -> string -> string -> W * F * option err.
+Variable write : W -> F -> list Z -> W * Z * option err.
+Variable close : W -> F -> W * option err.
+Variable name : F -> string.
+Variable rename : W -> string -> string -> W * option err.
+Variable remove : W -> string -> W * option err.
+Variable join : list string -> string.
+Variable marshal : crl_fileCacheContent -> list Z * option err.
+
+(* the bytes Set stores: the encoding of the two raw CRLs; None: nothing is stored (nil bundle, nil
+   base CRL, or json.Marshal failed) *)
+Definition set_content (bundle : ptr crl_Bundle) : option crl_fileCacheContent :=
+  match ptr_val bundle with
+  | None => None
+  | Some b =>
+      match ptr_val (Bundle_BaseCRL b) with
+      | None => None
+      | Some base =>
+          Some (mk_fileCacheContent (RevocationList_Raw base)
+                  (match ptr_val (Bundle_DeltaCRL b) with Some d => RevocationList_Raw d | None => [] end))
+      end
+  end.
+Definition set_bytes (bundle : ptr crl_Bundle) : option (list Z) :=
+  match set_content bundle with
+  | None => None
+  | Some c => match snd (marshal c) with None => Some (fst (marshal c)) | Some _ => None end
+  end.
+
+(* the path Set stores under: <root>/<fileName url> - the same expression as [get_path] *)
+Definition set_path (c : crl_FileCache) (url : string) : string :=
+  join [FileCache_root c; gen_crl_FileCache_fileName sum hexenc c url].
+
+Definition gen_set := gen_crl_FileCache_Set sum hexenc F W create write close name rename remove join marshal.
+
+(* Set never panics; without bytes to store it leaves the world alone and returns an error; otherwise
+   it is WriteFile(root, <root>/<fileName url>, bytes): temporary file in the cache root itself *)
+Lemma gen_Set_equiv : forall w c url bundle,
+  exists r, gen_set w c url bundle = Some r /\
+    match set_bytes bundle with
+    | None => r = (w, snd r) /\ is_none (snd r) = false
+    | Some bytes =>
+        (fst r, is_none (snd r)) =
+        (fst (gen_write F W create write close name rename remove w (FileCache_root c) (set_path c url) bytes),
+         is_none (snd (gen_write F W create write close name rename remove w (FileCache_root c) (set_path c url) bytes)))
+    end.
+Proof.
+  intros w c url bundle. unfold gen_set, gen_crl_FileCache_Set, set_bytes, set_content, gen_write.
+  fold (set_path c url).
+  destruct bundle as [|gn b|b]; cbn [ptr_val]; try (eexists; split; [reflexivity|split; reflexivity]).
+  all: rewrite ptr_is_nil_val;
+    destruct (ptr_val (Bundle_BaseCRL b)) as [base|]; cbn [is_none negb];
+    try (eexists; split; [reflexivity|split; reflexivity]).
+  all: rewrite ptr_is_nil_val;
+    destruct (ptr_val (Bundle_DeltaCRL b)) as [d|]; cbn [is_none negb];
+    unfold set_fileCacheContent_DeltaCRL; cbn [fileCacheContent_BaseCRL fileCacheContent_DeltaCRL].
+  all: match goal with |- context [marshal ?x] => destruct (marshal x) as [bytes [e|]] end; cbn [fst snd is_none negb];
+    try (eexists; split; [reflexivity|split; reflexivity]).
+  all: destruct (gen_file_WriteFile F W create write close name rename remove w (FileCache_root c) (set_path c url) bytes)
+         as [w' [e2|]];
+    cbn [fst snd is_none negb]; eexists; (split; [reflexivity|reflexivity]).
+Qed.
+End SetEquiv.
